@@ -39,7 +39,11 @@ type c11Case struct {
 	// starting with the At-th one dialled, in the way Kind says, and serves every other connection normally; with
 	// IdleClose it closes a connection after every reply it sent on it (a server with a very short idle time-out), so
 	// that every call begins on a connection that is gone
-	DropCount int  `json:"drop_count,omitempty"`
+	// DialError (server not reachable afterwards): what the failing dials return: "" = connection refused | eof | closed-pipe |
+	// unexpected-eof | reset | net-closed (a peer that hangs up in the middle of a TLS handshake makes the dial fail with
+	// an end-of-stream error, not with "refused")
+	DialError string `json:"failing_dials_return,omitempty"`
+	DropCount int    `json:"drop_count,omitempty"`
 	IdleClose bool `json:"server_closes_after_every_reply,omitempty"`
 }
 
@@ -213,6 +217,18 @@ func c11Bubble(c c11Case) c11Result {
 			<-redialRelease
 		}
 		if n > c.Conn && !c.Reachable && c.Dir != "server-drops-connections" {
+			switch c.DialError {
+			case "eof":
+				return nil, fmt.Errorf("memnet: handshake: %w", io.EOF)
+			case "closed-pipe":
+				return nil, io.ErrClosedPipe
+			case "unexpected-eof":
+				return nil, io.ErrUnexpectedEOF
+			case "reset":
+				return nil, memnet.Reset("read")
+			case "net-closed":
+				return nil, memnet.Closed("read")
+			}
 			return nil, errors.New("memnet: connection refused")
 		}
 		a, b := memnet.Pipe()
@@ -652,7 +668,12 @@ func c11Space() []c11Case {
 		for _, reachable := range []bool{true, false} {
 			for _, fu := range followUps {
 				add := func(dir string, at int, kind string) {
-					out = append(out, c11Case{Enforced: enforced, Dir: dir, At: at, Kind: kind, Reachable: reachable, FollowUp: fu})
+					cc := c11Case{Enforced: enforced, Dir: dir, At: at, Kind: kind, Reachable: reachable, FollowUp: fu}
+					if !reachable {
+						// the dials that fail afterwards fail in turn with each kind of error
+						cc.DialError = []string{"", "eof", "closed-pipe", "unexpected-eof", "reset", "net-closed"}[len(out)%6]
+					}
+					out = append(out, cc)
 				}
 				add("none", 0, "")
 				for at := 1; at <= 7; at++ {
@@ -733,7 +754,7 @@ func c11Space() []c11Case {
 func TestC11Faults(t *testing.T) {
 	const name = "TestC11Faults"
 	rec := evid.New("C11", name, "fault enumeration (single caller, synctest bubble): every Read index 1..7 and Write index 1..3 of the first connection x {EOF, closed, reset, short write, reset reported after the data was delivered} (also on a transport whose Close takes 500 ms, the follow-up being made while the failed connection is still closing), the server closing right after its 1st..3rd reply, a server that keeps accepting and dropping every connection (on accept, after 8 bytes, after the whole request) from the 1st/2nd/3rd connection on, a server that drops 1..4 consecutive connections and serves the others (optionally closing every connection right after its reply), Close() landing while a call is re-dialling (the dial then succeeds), the first connection lost during version negotiation and the negotiation failing on the replacement (Dial fails: nothing it opened may remain), the server going away exactly when the k-th request is about to be handed to the write loop, and the k-th call abandoned (context cancelled) between send and receive once its response has been read off the wire (yield-point hooks), "+
-		"x {with, without version negotiation} x {server reachable afterwards, not} x follow-up {call again, twice, Close, Close then call, Clone}; two calls precede the follow-up; "+
+		"x {with, without version negotiation} x {server reachable afterwards, not (the failing dials returning connection refused, an end-of-stream, closed-pipe, unexpected-EOF, reset or closed-connection error)} x follow-up {call again, twice, Close, Close then call, Clone}; two calls precede the follow-up; "+
 		"oracle: every call and Dial/Close/Clone returns (quiescence = hang verdict), response complete and its own or an error, never two consecutive failed calls on a reachable server, <= 4 transmissions per request and a bounded number of connections per call, a closed client serves nothing and dials nothing, census of client connection goroutines 0 at the end; "+
 		"non-trivial = a fault is injected; distinct by case").Attach(t)
 	rec.Exhaustive(true)
@@ -794,6 +815,9 @@ func TestC11Random(t *testing.T) {
 			c.At = rapid.IntRange(1, 5).Draw(rt, "at")
 		}
 		c.CloseMs = rapid.SampledFrom([]int{0, 0, 0, 1, 500, 4000}).Draw(rt, "closems")
+		if !c.Reachable {
+			c.DialError = rapid.SampledFrom([]string{"", "eof", "closed-pipe", "unexpected-eof", "reset", "net-closed"}).Draw(rt, "dialerror")
+		}
 		key, _ := json.Marshal(c)
 		rec.Case(true, key, "fault="+c.Dir, fmt.Sprintf("slowclose=%v", c.CloseMs > 0))
 		if rec.WantSample() {
